@@ -118,6 +118,20 @@ CHECKS = {
         note="The read-only marking itself is not judged (mechanism, not property).",
         design="4 C16",
     ),
+    "C17": dict(
+        category="model_checking",
+        technique="exhaustive enumeration of environment-seam combinations (heap layout x clock offset x import order) per configuration, each in a fresh process, outputs compared byte for byte",
+        text="24 (thorough 96) configurations (12 specs spanning grammar-only, constraints, computed repetitions, equality repair, generators, regexes, bits, soft constraints, ambiguity x seeds x population sizes) are each run in 8 fresh processes, one per combination of two heap layouts (garbage allocated before importing fandango shifts every id()), two clock offsets and two import orders, with the same PYTHONHASHSEED; the ordered solution sequence, the returned list and the parse forest must be identical across all children.",
+        note="Decides independence from these three sources for these configurations only; os.urandom/uuid4 are not intercepted.",
+        design="4 C17",
+    ),
+    "C18": dict(
+        category="model_checking",
+        technique="explicit-state enumeration of activity histories on other spec objects, each history in its own fresh process, differential oracle against the instance used alone",
+        text="All histories up to length 2 (thorough 3) over {fuzz / long stagnating fuzz / parse on spec A, construct / fuzz a third spec, unrelated parse and differently seeded fuzz on B} for 2 x 3 spec pairs chosen so that A touches what B reads (stagnation raises the repetition cap; B has *, +, {n,}; shared start symbols and words); every history runs in a process forked from a parent that only imported fandango. B's seeded solution sequence and parse forest must equal those of B used alone; a fingerprint of fandango's module-level mutable state is recorded per state.",
+        note="The repetition-cap leak was repaired in /repo.",
+        design="4 C18",
+    ),
     "C19": dict(
         category="model_checking",
         technique="explicit-state BFS over message histories driving the real forecaster and DerivationTree.append, compared state by state with a reference message-level language",
